@@ -233,9 +233,11 @@ class Machine(Interp):
         if isinstance(v, Obj) and "__data__" in v.fields and not (isinstance(v.cls, ClassInfo) and v.cls.find("__setitem__", self.loader)):
             v = v.fields["__data__"]
         if isinstance(v, PyDict):
+            self.ctx.effect("mutate", (v, "__setitem__"))
             ops.dict_set(v, k, val)
             return
         if isinstance(v, PyList):
+            self.ctx.effect("mutate", (v, "__setitem__"))
             if isinstance(k, SV):
                 raise Unsupported("symbolic index store")
             try:
@@ -690,11 +692,14 @@ class Machine(Interp):
             yield from [v.keys[k] for k in list(v.keys)]
             return
         if isinstance(v, GenObj):
-            try:
-                yield from v.it
-            finally:
-                v.done = True
-            return
+            # no `yield from`: leaving a for loop with `break` must not close the interpreted generator (Python keeps it alive)
+            while True:
+                try:
+                    x = next(v.it)
+                except StopIteration:
+                    v.done = True
+                    return
+                yield x
         if isinstance(v, Obj) and isinstance(v.cls, ClassInfo):
             f = v.cls.find("__iter__", self.loader)
             if f and f[1] == "method":
